@@ -36,6 +36,8 @@ try:
         out = r.stdout + r.stderr
         if e["expect"] == "violation":
             ok = r.returncode == 1 and "VIOLATION property=%s" % e["prop"] in out and (not e.get("obligation") or e["obligation"] in out)
+        elif e["expect"] == "undecided-or-violation":   # never a silent pass
+            ok = r.returncode in (1, 2)
         else:
             ok = r.returncode == 0
         failed_obs = [l for l in out.split("\n") if l.startswith("FAILED OBLIGATION") or l.startswith("UNDECIDED")]
